@@ -197,6 +197,22 @@ def check_spec(spec: NetSpec, label, st: Stats, plan):
                 ref_ = refmodel.step(sp_i, vi, {k: float(v) for k, v in P_i.items()})
                 compare(sp_i, nxt, ref_, st, "numpy (integer-typed parameters and arrays)", case, problems)
                 compare(sp_i, nxt2, ref_, st, "SX (integer-typed parameters)", dict(case, engine="SX"), problems)
+        # ---- spare keyword arguments to Network.step that no law of this network takes by that name (a caller splatting one
+        # dictionary of constants, as the repository's own tests do): the step is unchanged
+        if full and plan.get("partial"):
+            from .c05 import SPARE
+            spare = {k_: v_ for k_, v_ in SPARE.items() if k_ not in P and k_ not in ("T", "tau", "eta", "kappa", "delta", "phi")}
+            for vlabel, val in valgen.vectors(spec, 0):
+                st.inc("executions")
+                case = {"spec": spec.describe(), "config": label, "P": P, "val": {f"{k[0]}.{k[1]}": v for k, v in val.items()},
+                        "engine": "numpy", "spare_keywords": True}
+                try:
+                    nxt = np_step(spec, val, dict(P, **spare))[0]
+                except Exception as e:  # noqa: BLE001
+                    problems.append((f"{PROP}/exception/{exc_site(e)}/{type(e).__name__}", f"numpy (spare keyword arguments to step): "
+                                     f"{exc_text(e)}", case))
+                    break
+                compare(spec, nxt, refmodel.step(spec, val, P), st, f"numpy (spare keyword arguments {sorted(spare)} to step)", case, problems)
         # ---- every element an instance of a user-defined subclass of its library class (NumPy and compiled SX)
         if full and plan.get("partial"):
             for vlabel, val in valgen.vectors(spec, 0):
@@ -377,6 +393,10 @@ def replay(case):
         np_step(spec, valgen.base_vector(spec, 1), P, built=b_, engine=eng_)
         nxt = np_step(spec, val, P, supply=supply, engine=eng_, built=b_)[0]
         ref = refmodel.step(spec, filled(spec, val, supply, case["fill"]), P)
+    elif case.get("spare_keywords"):
+        from .c05 import SPARE
+        spare = {k_: v_ for k_, v_ in SPARE.items() if k_ not in P and k_ not in ("T", "tau", "eta", "kappa", "delta", "phi")}
+        nxt = np_step(spec, val, dict(P, **spare))[0]
     elif case.get("int_params"):
         from ..spec import integer_typed
         sp_i, ov_i, P_i = integer_typed(spec, P)
